@@ -353,6 +353,9 @@ impl<SP: StorageProvider, PS: PolicyStore> Transaction<SP, PS> {
     {
         // Must always start a new perspective for merges.
         if let Some(p) = Option::take(&mut self.perspective) {
+            // The perspective is gone, so is its head: if the merge fails below,
+            // a later child of that head must open a new perspective on it.
+            self.phead = None;
             self.pbase.clear();
             let seg = storage.write(p)?;
             self.heads.insert(seg.head_id(), seg.head_location()?);
